@@ -21,7 +21,7 @@ pairs = - | <k>:<v>(,<k>:<v>)*      alts = - | <hex of query text>=<stmts>(/<hex
   mauth u=<s> p=<s> h=<hdr>       lib/httpserver.Authenticate (ts-meta / ts-store)      → deny <st> | inner | deny+inner <st>
   setpw <name> <pw>               the catalogue's password of the user changes; the password cache is not cleaned → ok | nouser
   cauth <name> <pw>               Client.Authenticate with the password cache (stateful)  → ok | fail
-  boot cfg=<…> <METHOD> <path> db=<s> u=<s> p=<s> h=<hdr> q=<stmts>   a world without users → decision as for route
+  boot cfg=<…> <METHOD> <path> db=<s> dbx=<0|1> u=<s> p=<s> h=<hdr> q=<stmts>   a world without users → decision as for route
 strings are hex (UTF-8), "-" = empty.  priv = 0..3.
 hdr also: jwt:<alg><key><exp><nbf>:<m|x|n<name>>   alg a=HS256 b=HS384 c=HS512 n=none r=RS256; key s=shared secret w=other e=empty;
           exp f=future p=past m=missing z=0 n=negative t=a string; nbf a=absent p=past f=future
@@ -306,10 +306,11 @@ def stepS (s : St) (line : String) : St × String :=
     match parseReq w.sharedSecret u p h with
     | some r => (s, showPlain (authenticatePlain w r))
     | none => (s, "bad-op")
-  | ["boot", cfg, method, path, db, u, p, h, q] =>
-    match (kv "cfg" cfg).bind parseCfg, unhex path, (kv "db" db).bind unhex, parseReq w.sharedSecret u p h, (kv "q" q).bind parseStmts with
-    | some c, some path, some d, some r, some q => (s, showDecision (decideBoot w c method path.toList r d q))
-    | _, _, _, _, _ => (s, "bad-op")
+  | ["boot", cfg, method, path, db, dbx, u, p, h, q] =>
+    match (kv "cfg" cfg).bind parseCfg, unhex path, (kv "db" db).bind unhex, (kv "dbx" dbx).bind (fun x => x.toList.head?.bind bit),
+          parseReq w.sharedSecret u p h, (kv "q" q).bind parseStmts with
+    | some c, some path, some d, some dx, some r, some q => (s, showDecision (decideBoot w c method path.toList r d dx q))
+    | _, _, _, _, _, _ => (s, "bad-op")
   | _ => let (w', a) := step w line; (⟨w', s.cache⟩, a)
 
 partial def loop (s : St) (h : IO.FS.Stream) (out : IO.FS.Stream) : IO Unit := do
